@@ -178,6 +178,22 @@ def _invoke(ds, op):
     return fn(**kw), {"name": f, "args": (), "kwargs": kw}
 
 
+def _bound(rec: dict) -> dict:
+    """arguments of a recorded filter by parameter name (positional ones bound through the filter's signature)"""
+    import inspect
+
+    from maze_dataset.dataset.maze_dataset import MazeDatasetFilters
+
+    out = dict(rec.get("kwargs", {}) or {})
+    args = tuple(rec.get("args", ()) or ())
+    fn = getattr(MazeDatasetFilters, str(rec.get("name", "")), None)
+    if args:
+        names = [p_ for p_ in inspect.signature(fn).parameters][1:] if fn is not None else []
+        for k, v in enumerate(args):
+            out[names[k] if k < len(names) else f"<arg{k}>"] = v
+    return out
+
+
 def _snapshot(ds):
     return ([_struct(m) for m in ds.mazes], len(ds), L.json_copy(_ser(ds.cfg)), [m.generation_meta is None for m in ds.mazes])
 
@@ -245,10 +261,8 @@ def run_sequence(ds, items, ops, sig="C08"):
             require(after[3] == before[3], f"{sig}:{f}:input-metadata-changed", "per-maze metadata of the input changed")
         want_filters = filters_before + [rec]
         gotf = list(res.cfg.applied_filters)
-        ok = len(gotf) == len(want_filters) and all(
-            a.get("name") == b.get("name") and tuple(a.get("args", ())) == tuple(b.get("args", ())) and dict(a.get("kwargs", {})) == dict(b.get("kwargs", {}))
-            for a, b in zip(gotf, want_filters)
-        )
+        # the record must name the filter and carry its arguments; whether an argument is stored positionally or by keyword is not fixed
+        ok = len(gotf) == len(want_filters) and all(a.get("name") == b.get("name") and _bound(a) == _bound(b) for a, b in zip(gotf, want_filters))
         require(ok, f"{sig}:{f}:provenance", f"recorded {gotf}, expected {want_filters}")
         require(res.cfg.n_mazes == len(res) == len(new_items), f"{sig}:{f}:maze-count", f"cfg.n_mazes={res.cfg.n_mazes}, len={len(res)}, model {len(new_items)}")
         if f == "collect_generation_meta":
